@@ -42,7 +42,7 @@ def main():
     prop = meta.get("property") or meta.get("breaks")
     if checks is None:
         checks = [prop]
-    name = os.path.basename(os.path.dirname(mdir)) + "-" + os.path.basename(mdir) if os.path.basename(mdir) in ("A", "B", "C", "D", "E", "F", "G", "H", "J", "K") else os.path.basename(mdir)
+    name = os.path.basename(os.path.dirname(mdir)) + "-" + os.path.basename(mdir) if os.path.basename(mdir) in ("A", "B", "C", "D", "E", "F", "G", "H", "J", "K", "L", "M", "N", "P") else os.path.basename(mdir)
     wt = "/tmp/seedwt/%s-%d" % (name, os.getpid())
     os.makedirs("/tmp/seedwt", exist_ok=True)
     out = {"mutant": mdir, "property": prop, "checks": {}}
